@@ -232,6 +232,35 @@ func c37(c *hx.Ctx) {
 		total += len(insts) * len(insts)
 	}
 	c.Extra["pairs_total"] = total
+	// hand-built url.URL values (not produced by url.Parse from distinct texts): the HTTP lookup
+	// controllers resolve on URL.Path, IsEquivalent compares URL.String()
+	{
+		type up struct{ a, b *url.URL }
+		for _, pr := range []up{
+			{&url.URL{Host: "x"}, &url.URL{Path: "//x"}},
+			{&url.URL{Path: "/a"}, &url.URL{Path: "/a", RawPath: "/a"}},
+			{&url.URL{Path: "/a b"}, &url.URL{Path: "/a%20b"}},
+		} {
+			da := bifrost_http.NewLookupHTTPHandler("GET", pr.a, "")
+			db := bifrost_http.NewLookupHTTPHandler("GET", pr.b, "")
+			var obs bool
+			pn, _ := hx.Catch(func() { obs = da.(directive.DirectiveWithEquiv).IsEquivalent(db) })
+			desc := map[string]any{"type": "lookupHTTPHandler", "a": fmt.Sprintf("%#v", *pr.a), "b": fmt.Sprintf("%#v", *pr.b),
+				"a_string": pr.a.String(), "b_string": pr.b.String(), "a_path": pr.a.Path, "b_path": pr.b.Path, "is_equivalent": obs}
+			c.Class("lookupHTTPHandler-handbuilt-url")
+			if pn {
+				c.Failf("equiv-panic-lookupHTTPHandler", desc, "IsEquivalent panicked")
+				continue
+			}
+			if obs && (pr.a.Path != pr.b.Path || pr.a.Host != pr.b.Host) {
+				c.Failf("equiv-merges-lookupHTTPHandler-handlerURL-path", desc,
+					"IsEquivalent = true although the URLs differ in Path/Host (%q/%q vs %q/%q): URL.String() renders both as %q",
+					pr.a.Host, pr.a.Path, pr.b.Host, pr.b.Path, pr.a.String())
+			}
+			t := func(u *url.URL) string { return "(mk_lookupHTTPHandler " + hx.Str("GET") + " (mk_url " + hx.Str(u.String()) + ") " + hx.Str("") + ")" }
+			c.Case(hx.App("EqHttp", t(pr.a), t(pr.b), hx.Bool(obs)), desc)
+		}
+	}
 	for ti, t := range types {
 		insts := all[ti]
 		// per-type share of the Coq sample: every type gets cases
